@@ -73,6 +73,11 @@ def gen_case(r, u):
             filters = [u.wellformed_filter(pool + fresh, max_conds=r.choice([1, 1, 2])) for _ in range(nf)]
             for f in filters:
                 f.pop("limit", None)
+                if r.random() < 0.1:
+                    # hex in another spelling: live and stored matching must still agree
+                    for k in ("authors", "ids"):
+                        if k in f:
+                            f[k] = [x.upper() if r.random() < 0.7 else x for x in f[k]]
             actions.append(("REQ", c, sub, filters))
             subs[c].append(sub)
         elif roll < 0.40 and subs[c]:
@@ -81,6 +86,10 @@ def gen_case(r, u):
             ev = u.event(kind=r.choice([1, 1, 7, 255, 40000]), delegated=(r.random() < 0.1))
             fresh.append(ev)
             actions.append(("EVENT", c, None, ev))
+            if r.random() < 0.12 and nconn > 1:
+                # the very same event from a second connection at (nearly) the same moment
+                c2 = r.choice([x for x in range(nconn) if x != c])
+                actions.append(("EVENT-DUP", c2, None, ev))
         elif roll < 0.96:
             actions.append(("BARRIER", None, None, None))
         else:
@@ -117,6 +126,7 @@ async def run_case(backend, seed, counters, coverage):
         dead = set()
         eager = r.random() < 0.5
         qpoints = []
+        dup_ids = set()
         for act in actions:
             kind, c, sub, payload = act
             if kind == "BARRIER":
@@ -143,7 +153,10 @@ async def run_case(backend, seed, counters, coverage):
             else:
                 msg = ["EVENT", payload]
                 cmd = Cmd(c, "EVENT", msg, event=payload)
-            if eager or r.random() < 0.3:
+            if kind == "EVENT-DUP":
+                cmd.kind = "EVENT"
+                dup_ids.add(payload["id"])
+            elif eager or r.random() < 0.3:
                 await conn.processed()
             conn.feed(msg)
             cmds[c].append(cmd)
@@ -196,8 +209,12 @@ async def run_case(backend, seed, counters, coverage):
                     for n, f in frames[c]:
                         if cmd.start < n <= cmd.done and isinstance(f, list) and f and f[0] == "OK":
                             cmd.ok, cmd.ok_n = f[2], n
-                    if cmd.ok is True:
+                    if cmd.ok is True and cmd.event["id"] not in {x.event["id"] for x in accepted}:
                         accepted.append(cmd)
+                    elif cmd.ok is True:
+                        # both submissions of one event acknowledged: widen the event's interval
+                        first = next(x for x in accepted if x.event["id"] == cmd.event["id"])
+                        first.start, first.done = min(first.start, cmd.start), max(first.done, cmd.done)
         # subscription generations
         gens = []
         for c in range(nconn):
@@ -271,9 +288,12 @@ async def run_case(backend, seed, counters, coverage):
                         viols.append({"key": "%s/pushed-to-%s" % (backend, g["end"]), "msg": "[%s] event accepted after subscription %r was %s (completed #%d, event started #%d) was still pushed at #%d"
                                       % (backend, g["sub"], g["end"], g["end_done"], X.start, late[0]), "replay": rp})
                     continue
-                limit = 1 + (1 if stored_possible else 0)
+                # one live push, plus - while the stored query may still be running - one stored copy
+                # per filter of the REQ that the event may match (C02 allows 1..k copies there)
+                limit = 1 + (sum(1 for v in verdicts if v != ref.NO) if stored_possible else 0)
                 if len(pushes) > limit:
-                    viols.append({"key": "%s/pushed-%d-times/%s" % (backend, len(pushes), "stored-overlap" if stored_possible else "after-eose"),
+                    viols.append({"key": ("%s/pushed-%d-times/%s" % (backend, len(pushes), "stored-overlap" if stored_possible else "after-eose")) if ev["id"] not in dup_ids
+                                  else "%s/duplicate-submission-pushed-twice" % backend,
                                   "msg": "[%s] event %s pushed %d times under %r (filters %s; EOSE at %s, event started #%d)"
                                          % (backend, ev["id"][:10], len(pushes), g["sub"], json.dumps(g["filters"])[:160], g["eose"], X.start), "replay": rp})
                 if def_open and must and stays:
@@ -305,7 +325,7 @@ async def run_case(backend, seed, counters, coverage):
                 bump(agree, "compared")
                 in_live, in_stored = eid in live, eid in stored_now
                 if in_live != in_stored and g["eose"] is not None and g["eose"] < X.start:
-                    how = "delegator" if (ref.MUST not in vs and any(d in sum((f.get("authors", []) for f in g["filters"]), []) for d in ref.delegators(ev))) else \
+                    how = "delegator" if (ref.MUST not in vs and any(d in [a.lower() for a in sum((f.get("authors", []) for f in g["filters"]), [])] for d in ref.delegators(ev))) else \
                         ("empty-tag-value" if any(f.get(k) and "" in f[k] for f in g["filters"] for k in f if k.startswith("#")) else
                          ("since-0" if any(f.get("since") == 0 for f in g["filters"]) else "other"))
                     viols.append({"key": "%s/live-stored-disagree/%s/%s" % (backend, "live-only" if in_live else "stored-only", how),
@@ -360,6 +380,18 @@ async def run_directed(backend, d, counters):
         await a.cmd(["REQ", "s"] + d["filters"])
         await rig.quiesce()
         n0 = rig.rec.n
+        if d.get("duplicate"):
+            b2 = rig.connect("b2")
+            b.feed(["EVENT", d["event"]])
+            b2.feed(["EVENT", d["event"]])
+            await b.processed()
+            await b2.processed()
+            await rig.quiesce()
+            n = sum(1 for _, f in a.parsed_frames(n0) if isinstance(f, list) and len(f) > 2 and f[0] == "EVENT" and f[2].get("id") == d["event"]["id"])
+            if n > 1:
+                viols.append({"key": "%s/duplicate-submission-pushed-twice" % backend, "msg": "[%s] directed: one event submitted by two connections was pushed %d times to one subscription" % (backend, n),
+                              "replay": {"backend": backend, "directed": d}})
+            return viols
         await b.cmd(["EVENT", d["event"]])
         await rig.quiesce()
         ev = d["event"]
